@@ -492,10 +492,10 @@ def run(ctx: Context, R: Reporter):
     fin = finalizer(ctx)
     rw = reweight_run(ctx, fin)
     wfn = _weights_fn(ctx)
-    rule_ab(ctx, R, fin, rw, wfn)
-    rule_c(ctx, R, fin, rw, wfn)
-    rule_d(ctx, R, fin, rw)
-    rule_e(ctx, R, fin, rw)
+    R.guard(rule_ab, ctx, R, fin, rw, wfn)
+    R.guard(rule_c, ctx, R, fin, rw, wfn)
+    R.guard(rule_d, ctx, R, fin, rw)
+    R.guard(rule_e, ctx, R, fin, rw)
 
 
 def variants():
